@@ -1,6 +1,7 @@
 package stake
 
 import (
+	"encoding/json"
 	"github.com/holiman/uint256"
 	"github.com/rigochain/rigo-go/ledger"
 	"github.com/rigochain/rigo-go/zzverif"
@@ -92,15 +93,15 @@ func ZZ_C14_S3() {
 			keep++
 		}
 	}
-	cnt := 0
-	for _, m := range bm.BlockHeights {
-		if m >= h0 {
-			cnt++
-		}
-	}
-	zzverif.Assert(cnt == keep, "S3 pruning keeps every mark >= h0")
-	for i := 1; i < len(bm.BlockHeights); i++ {
-		zzverif.Assert(bm.BlockHeights[i-1] < bm.BlockHeights[i], "S3 list strictly increasing")
+	// (through the marker's own interface only: its representation is free to change)
+	zzverif.Assert(bm.CountInWindow(h0, 1<<41, false) == keep, "S3 pruning keeps every mark >= h0")
+	// what the ledger persists (the marker travels inside the delegatee record as JSON)
+	bz, err := json.Marshal(bm)
+	zzverif.Assert(err == nil, "S3 the marker can be encoded")
+	if err == nil {
+		bm2 := &BlockMarker{}
+		zzverif.Assert(json.Unmarshal(bz, bm2) == nil, "S3 the marker can be decoded")
+		zzverif.Assert(bm2.CountInWindow(h0, 1<<41, false) == keep, "S3 the marks survive the encode/decode round trip")
 	}
 	zzverif.Event("S3", n, got)
 	zzverif.Reach("S3 end")
